@@ -800,16 +800,58 @@ def s_req(c: int, body: str):
     return {"k": "req", "c": c, "body": body}
 
 
-def run_real_sessions(ops: List[Dict[str, Any]], judge: bool = True):
-    """Run one session history on the real code. Returns (ident, steps, verdict, abstained)."""
-    real = Real(with_accessory=True)
+def registered_data(snap, ref: refp.RefPairings):
+    """The pairing data of a State snapshot in the terms of the reference: {uuid: (recorded identifier bytes,
+    key, admin?)}, and what the reference expects (None = bytes the observer never saw: anything goes)."""
+    props = {u: p for u, p in snap["props"]}
+    u2b = {u: b for u, b in snap["u2b"]}
+    have = {int(u): (bytes.fromhex(u2b[u]) if u in u2b else None, bytes.fromhex(k), isinstance(props.get(u), int) and bool(props[u] & 1))
+            for u, k in snap["paired"]}
+    want = {u: (idb, key, bool(p & 1)) for u, (idb, key, p) in ref.entries.items()}
+    return have, want
+
+
+def registered_mismatch(snap, ref: refp.RefPairings) -> Optional[str]:
+    have, want = registered_data(snap, ref)
+    if set(have) != set(want):
+        return f"{len(have)} controllers in the State maps, {len(want)} implied by the answers"
+    for u, (idb, key, adm) in want.items():
+        hidb, hkey, hadm = have[u]
+        if hkey != key or hadm != adm:
+            return "key or admin flag of a pairing differs from what the answers imply"
+        if idb is not None and hidb != idb:
+            return (f"the identifier bytes recorded for a pairing are {hidb!r}, it was registered with {idb!r}")
+    return None
+
+
+def run_real_sessions(ops: List[Dict[str, Any]], judge: bool = True, start: Optional[Dict[str, Any]] = None):
+    """Run one session history on the real code. `start` as in run_real (controllers own real key pairs).
+    Returns (ident, steps, verdict, abstained, init snapshot | None)."""
+    init = None
+    ref: Optional[refp.RefPairings] = refp.RefPairings()
+    if start is None:
+        real = Real(with_accessory=True)
+    else:
+        from props import c14 as _c14
+
+        holder = os.path.join(_tmpdir(), f"sstart-{os.getpid()}-{Real._n}.state")
+        with open(holder, "w", encoding="utf8") as fh:
+            json.dump(_c14.doc_to_json(_c14.author_doc(start["state"], start["absent"])), fh)
+        try:
+            real = Real(with_accessory=True, state_file_from=holder)  # add_accessory loads the file
+        finally:
+            os.remove(holder)
+        init = real.snapshot()
+        for u, idb, key, perm in start_known(start):
+            ref.registered(u, idb, key, perm)
+        if pairing_set(init) != ref.pairing_set():
+            ref = None
     try:
         ident = real.ident()
         acc_id, acc_ltpk = real.state.mac.encode(), bytes.fromhex(ident["public_key"])
         conns: Dict[int, Any] = {}
         proved: Dict[int, Optional[int]] = {}
         steps = []
-        ref: Optional[refp.RefPairings] = refp.RefPairings()
         v = Verdict()
 
         def conn(c):
@@ -843,15 +885,22 @@ def run_real_sessions(ops: List[Dict[str, Any]], judge: bool = True):
                 except Exception as ex:  # noqa: BLE001
                     res = "controller error " + type(ex).__name__
                 after = real.snapshot()
-                steps.append({"verified": res == "verified", "sess": sess(h), "state": after})
+                steps.append({"verified": res == "verified", "sess": sess(h), "state": after, "wrote": real.file_sig() != sig0})
                 if judge and ref is not None:
                     u = parse_id(idb) if idb is not None else None
                     proves = (op["proof"] == "sign" and op["outer_ok"] and u is not None and u in ref.entries
                               and ref.entries[u][1] == ctrl_pub(op["seed"]))
                     if res == "verified" and proves:
                         proved[op["c"]] = u
-                    if pairing_set(after) != pairing_set(before):
-                        v.fail("C06:pairings-differ-from-history", "a pair-verify exchange changed the set of pairings", i)
+                    # only admin /pairings requests change pairing data: keys, permissions and RECORDED identifier bytes
+                    # must be what they were (a controller for which no bytes were recorded may get them filled in)
+                    b2, a2 = {x: y for x, y in before["u2b"]}, {x: y for x, y in after["u2b"]}
+                    touched = [x for x in b2 if a2.get(x) != b2[x]]
+                    if pairing_set(after) != pairing_set(before) or before["props"] != after["props"] or touched:
+                        what = ("rewrote the identifier bytes recorded for a controller" if touched else "changed keys / permissions / the set of pairings")
+                        v.fail("C06:pairing-data-changed-outside-admin-request",
+                               f"a pair-verify exchange ({'accepted' if res == 'verified' else 'refused'}; identifier sent as {idb!r}) {what}: "
+                               "list-pairings will no longer return the bytes the controller was registered with", i)
             else:
                 post, h = conn(op["c"])
                 code, body = post("/pairings", bytes.fromhex(op["body"]))
@@ -863,14 +912,18 @@ def run_real_sessions(ops: List[Dict[str, Any]], judge: bool = True):
                     who = proved.get(op["c"])
                     synth = {"k": "req", "enc": who is not None, "cu": str(who) if who is not None else None, "body": op["body"]}
                     ref = judge_step(v, ref, i, synth, before, after, code, body)
+            if judge and ref is not None and v.sig is None:
+                bad = registered_mismatch(real.snapshot(), ref)
+                if bad:
+                    v.fail("C06:pairings-differ-from-history", f"after step {i} ({op['k']}) {bad}", i)
         if v.sig == "C06:served-without-admin":
             v.desc += " (sessions from real pair-verify exchanges; identity = the controller that last proved itself on the connection)"
-        return ident, steps, v, ref is None
+        return ident, steps, v, ref is None, init
     finally:
         real.close()
 
 
-def sessions_model_line(ops, ident):
+def sessions_model_line(ops, ident, init=None):
     mops, tbl = [], {}
 
     def note(b: bytes):
@@ -891,7 +944,10 @@ def sessions_model_line(ops, ident):
             it = lenient_items(bytes.fromhex(op["body"]))
             if refp.T_USER in it:
                 note(it[refp.T_USER])
-    return {"layer": "pairstate", "op": "sessions", "ident": ident, "parse": tbl, "ops": mops}
+    ln = {"layer": "pairstate", "op": "sessions", "ident": ident, "parse": tbl, "ops": mops}
+    if init is not None:
+        ln["init"] = init
+    return ln
 
 
 DISHONEST = [("garbage", True), ("foreign", True), ("wrong-material", True), ("missing", True), ("sign", False), ("garbage", False)]
@@ -908,6 +964,51 @@ def dishonest(c: int, claimed: Optional[Dict[str, Any]], me: Dict[str, Any], mod
     proof, outer_ok = mode
     idb = claimed["id"] if claimed is not None else None
     return s_verify(c, idb, me["seed"], "sign" if proof == "foreign" else proof, outer_ok)
+
+
+def respelled(rng, c: Dict[str, Any], how: Optional[int] = None) -> bytes:
+    """Another spelling of the controller's identifier (same UUID, other bytes)."""
+    for _ in range(20):
+        b = spell(rng, c["u"], how)
+        if b != c["id"]:
+            return b
+        how = None
+    return c["id"].swapcase()
+
+
+def session_start(rng, cs, perms, absent):
+    """A start document whose controllers own real key pairs (so they can pair-verify after the load)."""
+    from props import c14 as _c14
+
+    st = _c14.authored_state(rng, 0)
+    st["paired"] = [[str(c["u"]), hx(ctrl_pub(hx(c["seed"])))] for c in cs]
+    st["props"] = [[str(c["u"]), p] for c, p in zip(cs, perms)]
+    st["u2b"] = [[str(c["u"]), hx(c["id"])] for c in cs]
+    return {"state": st, "absent": list(absent)}
+
+
+def spelling_session_scripts(ctx: Ctx):
+    """Genuine pair-verify exchanges that spell the identifier differently from the registered bytes (every
+    family), by admins and by plain users, then lists; and exchanges after a restart from a file without
+    recorded bytes (the documented back-fill). Returns [(ops, start)]."""
+    rng = ctx.rng
+    out = []
+    for how in range(N_SPELL):
+        A, B = _ctrl(rng, (how + 1) % N_SPELL), _ctrl(rng, (how + 3) % N_SPELL)
+        base = [s_setup(A["id"], A["seed"]), s_verify(0, A["id"], A["seed"]), s_req(0, add_body(B["id"], ctrl_pub(hx(B["seed"])), b"\x00"))]
+        # the USER verifies with another spelling; the admin too; everybody lists
+        out.append((base + [s_verify(1, respelled(rng, B, how), B["seed"]), s_req(0, LIST_BODY), s_verify(2, respelled(rng, A, how), A["seed"]),
+                            s_req(2, LIST_BODY), s_req(1, LIST_BODY), s_verify(1, B["id"], B["seed"]), s_req(0, LIST_BODY)], None))
+        # a dishonest exchange with another spelling must not touch anything either
+        out.append((base + [dishonest(1, {"id": respelled(rng, B, how)}, A, DISHONEST[how % len(DISHONEST)]), s_req(0, LIST_BODY)], None))
+    for absent in (["client_uuid_to_bytes"], ["client_properties", "client_uuid_to_bytes"], ["client_properties"], []):
+        for how in (0, 4, 2):
+            A, B = _ctrl(rng, 1), _ctrl(rng, how)
+            start = session_start(rng, [A, B], [1, 0], absent)
+            out.append(([s_verify(0, respelled(rng, B), B["seed"]), s_verify(1, A["id"], A["seed"]), s_req(1, LIST_BODY),
+                         s_verify(0, B["id"], B["seed"]), s_req(1, LIST_BODY), s_req(1, add_body(B["id"], ctrl_pub(hx(B["seed"])), b"\x01")),
+                         s_verify(2, respelled(rng, B), B["seed"]), s_req(2, LIST_BODY)], start))
+    return out
 
 
 def session_boundary_scripts(ctx: Ctx):
@@ -949,7 +1050,7 @@ def random_session_script(ctx: Ctx):
         c = rng.randrange(0, 4)
         me = owner.get(c) or rng.choice(cs)
         if r < 0.22:
-            ops.append(s_verify(c, me["id"], me["seed"]))
+            ops.append(s_verify(c, me["id"] if rng.random() < 0.6 else respelled(rng, me), me["seed"]))  # often another spelling of itself
             owner[c] = me
         elif r < 0.50:
             claimed = rng.choice(cs + [X, None]) if rng.random() < 0.8 else cs[0]
@@ -967,36 +1068,43 @@ def random_session_script(ctx: Ctx):
     return ops
 
 
-def record_session_failure(ctx: Ctx, ops, v: Verdict):
+def record_session_failure(ctx: Ctx, ops, v: Verdict, start=None):
     cut = ops[: v.at + 1]
 
     def still(cand):
         try:
-            return run_real_sessions(cand)[2].sig == v.sig
+            return run_real_sessions(cand, start=start)[2].sig == v.sig
         except Exception:  # noqa: BLE001
             return False
 
     small = delta_min(cut, still)
-    v2 = run_real_sessions(small)[2]
+    v2 = run_real_sessions(small, start=start)[2]
     desc = v2.desc if v2.sig == v.sig else v.desc
-    ctx.fail(v.sig, f"{desc} [history of {len(small)} step(s) incl. pair-verify exchanges]", {"kind": "sessions", "ops": small, "signature": v.sig})
+    payload = {"kind": "sessions", "ops": small, "signature": v.sig}
+    if start is not None:
+        payload["start"] = start
+    ctx.fail(v.sig, f"{desc} [history of {len(small)} step(s) incl. pair-verify exchanges"
+             + (f", after a restart from a state file without {start['absent'] or 'no member'}" if start else "") + "]", payload)
 
 
 def run_sessions(ctx: Ctx):
     st = ctx.stats
-    scripts = session_boundary_scripts(ctx)
-    nb = len(scripts)
+    cases = [(o, None) for o in session_boundary_scripts(ctx)] + spelling_session_scripts(ctx)
+    nb = len(cases)
     for _ in range(ctx.n(160, 3000)):
-        scripts.append(random_session_script(ctx))
+        cases.append((random_session_script(ctx), None))
+    scripts = [o for o, _ in cases]
     st.notes.append(f"session stream: {nb} deterministic + {len(scripts) - nb} random histories with real pair-verify exchanges "
-                    "(honest, and dishonest ones on fresh and on already verified connections)")
+                    "(honest ones spelling the identifier as registered or in another of the 10 families, dishonest ones on fresh and on "
+                    "already verified connections, some after a restart from a file without recorded identifier bytes); pairing data "
+                    "incl. recorded identifier bytes judged after EVERY step")
     lines, impl = [], []
-    for ops in scripts:
-        ident, steps, v, abstained = run_real_sessions(ops)
-        lines.append(sessions_model_line(ops, ident))
+    for ops, start in cases:
+        ident, steps, v, abstained, init = run_real_sessions(ops, start=start)
+        lines.append(sessions_model_line(ops, ident, init))
         impl.append(steps)
         if v.sig is not None:
-            record_session_failure(ctx, ops, v)
+            record_session_failure(ctx, ops, v, start)
             st.hit("outcome", "oracle:" + v.sig)
         tr = []
         for op, s_ in zip(ops, steps):
@@ -1004,6 +1112,8 @@ def run_sessions(ctx: Ctx):
                 mode = ("signed" if op["proof"] == "sign" and op["outer_ok"] else op["proof"] + ("" if op["outer_ok"] else "+wrong-outer-key"))
                 st.hit("op", "pair-verify")
                 st.hit("outcome", f"pair-verify/{mode}/{'verified' if s_['verified'] else 'refused'}")
+                if s_.get("wrote"):
+                    st.hit("outcome", "pair-verify/back-filled-missing-identifier-bytes")
                 tr.append(["v", op["c"], mode, s_["verified"], s_["sess"]["enc"]])
             elif op["k"] == "req":
                 r = s_["resp"]
@@ -1031,6 +1141,9 @@ def run_sessions(ctx: Ctx):
             j = next((k for k, (a, b) in enumerate(zip(ms, steps)) if a != b), min(len(ms), len(steps)))
             a, b = (ms[j] if j < len(ms) else {}), (steps[j] if j < len(steps) else {})
             field = next((f for f in ("verified", "sess", "resp", "state", "wrote", "doc") if a.get(f) != b.get(f)), "?")
+            if field == "state" and isinstance(a.get("state"), dict) and isinstance(b.get("state"), dict):
+                field = "state/" + next((f for f in ("paired", "props", "u2b") if a["state"].get(f) != b["state"].get(f)), "?")
+                a, b = {field: a["state"]}, {field: b["state"]}
             ctx.disagree(f"sessions/{field}", {"ops": ops[: j + 1], "step": j}, a.get(field), b.get(field))
     st.sample({"session_ops": [{k: (v_[:24] + "..." if isinstance(v_, str) and len(v_) > 24 else v_) for k, v_ in o.items()} for o in scripts[0][4:7]],
                "impl_steps": [{k: v_ for k, v_ in s_.items() if k in ("verified", "sess", "resp")} for s_ in impl[0][4:7]],
@@ -1202,17 +1315,19 @@ def search(ctx: Ctx):
             v = run_real(ops)[2]
             if v.sig is not None:
                 record_failure(ctx, ops, v)
-        for ops in session_boundary_scripts(ctx) + [random_session_script(ctx) for _ in range(3000)]:
-            v = run_real_sessions(ops)[2]
+        for ops, start in [(o, None) for o in session_boundary_scripts(ctx)] + spelling_session_scripts(ctx) + [(random_session_script(ctx), None) for _ in range(3000)]:
+            v = run_real_sessions(ops, start=start)[2]
             if v.sig is not None:
-                record_session_failure(ctx, ops, v)
+                record_session_failure(ctx, ops, v, start)
     finally:
         ctx.tier = saved
 
 
 def replay_sessions(ctx: Ctx, r):
     ops = r["ops"]
-    ident, steps, v, _ = run_real_sessions(ops)
+    if r.get("start"):
+        print(f"  restart: the driver loads a harness-authored state file without {r['start']['absent'] or 'no member'} holding {len(r['start']['state']['paired'])} controllers")
+    ident, steps, v, _, _init = run_real_sessions(ops, start=r.get("start"))
     for op, s_ in zip(ops, steps):
         if op["k"] == "setup":
             print(f"  pair-setup of {bytes.fromhex(op['id']).decode(errors='replace')} -> {s_['resp']}")
